@@ -91,6 +91,12 @@ def handleC02 (j : Json) : Except String Json := do
     | "ou" => do
       pure (Builtin.ouFPE, Jinns.Holds.Spec02.ouFPE Tmax (← getRatList sem "alpha") (← getRatList sem "mu")
         (← getRatList sem "sigma") (← single))
+    | "fpe" => do
+      let drift ← getPolyList j "drift"
+      let diff ← (← getArr j "diff").mapM polyList
+      -- the abstract class with user drift / diffusion is not one of the `Builtin`s of `evaluate`: the
+      -- driver evaluates `fpe2D` directly (below); the `Builtin` returned here is not used
+      pure (Builtin.ouFPE, Jinns.Holds.Spec02.fpe Tmax drift diff (← single))
     | "glv" => do
       let km ← getStr keys "main"
       let ko ← strList (← keys.getObjVal? "others")
@@ -108,7 +114,10 @@ def handleC02 (j : Json) : Except String Json := do
         (← dictNet n uk) (← head1 (← dictNet n pk)))
     | _ => throw s!"unknown kind {kind}"
   let pt := args.point
-  let model := evaluate polyOps polyExt (fun pt f => Poly.eval f pt) Tmax b none args n p
+  let model : Except String (List Rat) := match spec with
+    | .fpe Tmax drift diff u =>
+      .ok [Poly.eval (fpe2D polyOps Tmax (Jinns.Holds.comp drift) (fun i j => Jinns.Holds.comp (diff.getD i []) j) u) pt]
+    | _ => evaluate polyOps polyExt (fun pt f => Poly.eval f pt) Tmax b none args n p
   let doc := Jinns.Holds.documentedAt spec pt
   let holds := match observed with
     | some o => Jinns.Holds.holdsC02 spec pt o relTol
